@@ -122,6 +122,13 @@ def check_kang_roundtrip(ctx, rng):
 
 
 def run(ctx):
+    try:
+        _run(ctx)
+    except histories.OpFailed as e:
+        ctx.violation('history-step-fails', 'a legal history step is refused by the implementation: %s' % e, {'op': list(map(str, e.op)), 'step': e.k}, repr(e.exc)[:300], 'the step succeeds')
+
+
+def _run(ctx):
     n_pools = 2 if ctx.tier == 'quick' else 10
     n_hist = 3 if ctx.tier == 'quick' else 8
     with tempfile.TemporaryDirectory(dir='/var/tmp') as td:
@@ -148,6 +155,13 @@ def run(ctx):
 
 
 def oracle(ctx, budget_s=60):
+    try:
+        _oracle(ctx, budget_s)
+    except histories.OpFailed as e:
+        ctx.violation('history-step-fails', 'a legal history step is refused by the implementation: %s' % e, {'op': list(map(str, e.op)), 'step': e.k}, repr(e.exc)[:300], 'the step succeeds')
+
+
+def _oracle(ctx, budget_s=60):
     t = common.Timer()
     with tempfile.TemporaryDirectory(dir='/var/tmp') as td:
         while t.s() < budget_s and not [v for v in ctx.violations if 'direct-sound-after-restore' not in v['signature']]:
